@@ -101,7 +101,11 @@ def run(ctx):
         c20.extend_history(ctx, sess, regs, 60 if quick else 200)
         fam = [r for r in (sess.parse(t)[0] for t in markers.boolean_family(ctx.rng)) if r is not None]
         # near misses on one variable: same key, same operator, another value - never ==, never Equal
-        NEAR = [("'nt' in os_name", "'posix' in os_name"), ("'nt' not in os_name", "'posix' not in os_name"), ("os_name in 'posix nt'", "os_name in 'linux'"),
+        NEAR = [("os.name == 'posix'", "os_name == 'posix'"), ("sys.platform == 'linux'", "sys_platform == 'linux'"), ("platform.machine < 'x86_64'", "platform_machine < 'x86_64'"),
+                   ("'Ubuntu' in platform.version", "'Ubuntu' in platform_version"), ("platform.version in 'Ubuntu Debian'", "platform_version in 'Ubuntu Debian'"),
+                   ("python_implementation == 'CPython'", "platform_python_implementation == 'CPython'"), ("platform.python_implementation != 'PyPy'", "python_implementation != 'PyPy'"),
+                   ("python_version >= '3.8' and os.name == 'posix'", "python_version >= '3.8' and os_name == 'posix'"),
+                ("'nt' in os_name", "'posix' in os_name"), ("'nt' not in os_name", "'posix' not in os_name"), ("os_name in 'posix nt'", "os_name in 'linux'"),
                 ("os_name not in 'posix nt'", "os_name not in 'nt posix'"), ("extra == 'a'", "extra == 'b'"), ("extra != 'a'", "extra != 'b'"),
                 ("'win' in sys_platform", "'win' in os_name"), ("os_name == 'a'", "os_name == 'b'"), ("python_version >= '3.8'", "python_version >= '3.9'"),
                 ("implementation_version == '3.8'", "python_full_version == '3.8'")]
